@@ -43,7 +43,8 @@ func (check) Assumptions() []string {
 		"a config handed to SetChild or Merge that is the receiver, a part of it or a config holding it is stored / merged as the finite snapshot of what it holds when the call is made; the stored child is asked by identity (Child returns the stored object) because reads of a config that holds itself do not return",
 		"SetChild(nil) may be refused (nothing changes) or store a nil setting; above the maximum index a write beyond the end of the list (a jump) may be refused or pad - C07/C20 decide that, the history follows the library -, a write at the end or below it must succeed",
 		"outside, not generated: Merge operands with dotted or index keys (how the padding nils of the normalised operand meet existing settings is C01's nil rule); numbers above MaxIdx or with EnableNumKeys spelled as a segment of a name (C20: such a segment is a name, so it is no spelling of the idx argument); settings with the empty name (the API documents name \"\" as 'idx addresses the list'); references (VarExp) below written addresses",
-		"not demanded: error wording and error classes by depth; negative indices (C07/C20); IsDict/IsArray for a part emptied by removals (also whether a copy keeps the kind of an emptied container); CountField of an empty dictionary",
+		"a removal affects only the addressed setting: IsDict/IsArray of the holder and of every live handle are asked before and after each Remove and must not change (a frame condition on the library alone)",
+		"not demanded: error wording and error classes by depth; negative indices (C07/C20); what IsDict/IsArray answer in absolute terms for a part emptied by removals (also whether a copy keeps the kind of an emptied container); CountField of an empty dictionary",
 		"getter conversions only on small values (boundaries are C03)",
 	}
 }
@@ -412,11 +413,15 @@ func (h *hist) step() {
 		}
 	case op < 9: // remove
 		h.log = append(h.log, fmt.Sprintf("%s.Remove(%q,%d)", t.desc, name, idx))
+		kinds := h.kindsBefore(t, fs)
 		got, err := t.c.Remove(name, idx, h.o...)
 		h.res.Eval(1)
 		want, isErr := model.Remove(t.n, fs)
 		if got != want || isErr != (err != nil) {
 			h.fail("remove-outcome", "Remove returned (%v,%v), model (%v, err=%v)", got, err, want, isErr)
+			return
+		}
+		if h.kindsAfter(kinds, want, !fs[len(fs)-1].IsI); h.failed {
 			return
 		}
 		if want {
